@@ -153,11 +153,11 @@ def run(ctx):
         cases.append(("hand", s.encode()))
     files = sorted(glob.glob(os.path.join(REPO, "internal/testdata/**/*.proto"), recursive=True)
                    + glob.glob(os.path.join(REPO, "experimental/ast/printer/testdata/**/*.proto"), recursive=True))
-    files = files if ctx.tier == "thorough" else [f for f in files if os.path.getsize(f) < 12000]
+    files = files if ctx.tier == "thorough" else [f for f in files if os.path.getsize(f) < 8000]
     for f in files:
         cases.append(("corpus:" + os.path.relpath(f, REPO), open(f, "rb").read()))
-    plan = [("plain", ctx.budget(120, 1500)), ("plain-nocomment", ctx.budget(40, 500)), ("shuffled-plain", ctx.budget(40, 500)),
-            ("flat-adversarial", ctx.budget(120, 2000)), ("adversarial", ctx.budget(260, 6000))]
+    plan = [("plain", ctx.budget(100, 1500)), ("plain-nocomment", ctx.budget(30, 500)), ("shuffled-plain", ctx.budget(30, 500)),
+            ("flat-adversarial", ctx.budget(100, 2000)), ("adversarial", ctx.budget(200, 6000))]
     for strat, n in plan:
         for _ in range(n):
             cases.append((strat, prnlib.gen_source(rng, strat)[0].encode()))
